@@ -191,7 +191,8 @@ def run(c):
             i = body.find(b"\r\n\r\n")
             fb = r["parts"][0]["body"]
             # unambiguous only when the first part's body is non-empty and free of line breaks
-            if i > 0 and fb and b"\r" not in fb and b"\n" not in fb:
+            # (a body made of white space only would itself read as the blank line)
+            if i > 0 and fb.strip() and b"\r" not in fb and b"\n" not in fb:
                 muts.append(("part-blank-line-removed", head + b"\r\n\r\n" + body[:i] + b"\r\n" + body[i + 4:]))
         for kind, m in muts:
             cid = "k%d" % n
